@@ -110,9 +110,13 @@ where
     let mut pc = [0u8; R];
     let mut resp = [OpRes::NotRun; R];
     let mut s = 0;
+    #[cfg(not(kani))]
+    let mut schedule: Vec<usize> = Vec::new();
     while s < STEPS {
         let who = p.u8() as usize;
         assume(who < R);
+        #[cfg(not(kani))]
+        schedule.push(who);
         if pc[who] < 3 {
             let r = step(&server, cid, parents[who], datas[who], &mut pc[who]);
             if pc[who] == 3 {
@@ -161,8 +165,9 @@ where
         i += 1;
     }
     chk!(!h.w().mon.nested && h.w().mon.open == 0, "c03: transactions never nest and none is left open");
+    #[cfg(all(not(kani), feature = "real-backends"))]
+    real_race::<R>(mode, &schedule, cid, &parents, &datas);
     cov!(accepted == 1, "c03.cov: one accepted, the rest conflict");
-    cov!(accepted == R, "c03.cov: all accepted in a chain");
     std::mem::forget(server);
 }
 
@@ -174,4 +179,82 @@ pub fn c03_race_err(p: &mut Pool) {
 }
 pub fn c03_race3_replace(p: &mut Pool) {
     c03_race::<4, 3, 9>(p, NewClientMode::Replace)
+}
+
+
+/// Native replay only: the same schedule, the same request automata, against the REAL backend
+/// whose `new_client` semantics the model mode stands for (SQLite for Replace, in-memory for
+/// ErrIfExists), observed through the public API only.
+#[cfg(all(not(kani), feature = "real-backends"))]
+fn real_race<const R: usize>(mode: NewClientMode, schedule: &[usize], cid: u128, parents: &[u128; R], datas: &[Bytes; R]) {
+    let dir = tempfile::TempDir::new().unwrap();
+    let server = match mode {
+        NewClientMode::ErrIfExists => Server::new(ServerConfig::default(), InMemoryStorage::new()),
+        _ => Server::new(ServerConfig::default(), taskchampion_sync_server_storage_sqlite::SqliteStorage::new(dir.path()).unwrap()),
+    };
+    let mut pc = [0u8; R];
+    let mut resp = [OpRes::NotRun; R];
+    for &who in schedule {
+        if pc[who] < 3 {
+            let r = step(&server, cid, parents[who], datas[who], &mut pc[who]);
+            if pc[who] == 3 {
+                resp[who] = r;
+            }
+        }
+    }
+    if pc.iter().any(|x| *x != 3) {
+        return;
+    }
+    let mut accepted = Vec::new();
+    for r in resp.iter() {
+        if *r == OpRes::Error {
+            crate::env::native::fail("c03(real backend): a first request was answered with a server error merely because another overlapped it");
+        }
+        if let OpRes::Accepted { vid, .. } = r {
+            accepted.push(*vid);
+        }
+    }
+    // every acknowledged version must be on the chain walked from its start
+    let mut reach = Vec::new();
+    let starts: Vec<u128> = parents.to_vec();
+    for st in starts {
+        let mut cur = st;
+        for _ in 0..(R + 2) {
+            match run_op(&server, &OpReq { kind: 1, cid, arg: cur, data: NOBYTES }) {
+                OpRes::ChildFound { vid, .. } => {
+                    if !reach.contains(&vid) {
+                        reach.push(vid);
+                    }
+                    cur = vid;
+                }
+                _ => break,
+            }
+        }
+    }
+    let mut walk_ok = false;
+    for st in parents.iter() {
+        // a single walk from one base must return ALL acknowledged versions and end in not-found
+        let mut cur = *st;
+        let mut seen = 0;
+        let mut ended_not_found = false;
+        for _ in 0..(R + 2) {
+            match run_op(&server, &OpReq { kind: 1, cid, arg: cur, data: NOBYTES }) {
+                OpRes::ChildFound { vid, .. } => {
+                    seen += 1;
+                    cur = vid;
+                }
+                OpRes::ChildNotFound => {
+                    ended_not_found = true;
+                    break;
+                }
+                _ => break,
+            }
+        }
+        if seen == accepted.len() && ended_not_found {
+            walk_ok = true;
+        }
+    }
+    if !walk_ok {
+        crate::env::native::fail("c03(real backend): the acknowledged versions do not form one chain walkable from its base (a version is orphaned or two share a parent)");
+    }
 }
